@@ -11,7 +11,7 @@ ALL = [f"C{n:02d}" for n in range(1, 21)]
 CLAIMED = {
     "C01": dict(
         category="exploration",
-        text="Honest aggregates (per-run pool of registrations: 1..6 parties, equal/random/2^60-vs-1 stakes, m<=10, phi incl. 1) are mutated by a 23-rule grammar over their JSON view (index sets, m-boundary values, not-won indices, signer slots, claimed key/stake, outsider keys carrying genuine signatures, sigma surgery incl. compensating pairs, Merkle batch-path nodes and indices), pushed through five wire paths (JSON, JSON-hex key, CBOR, bytes-hex key, harness-packed legacy bytes) and verified under the same or a foreign context (k+, m-, other phi/msg/avk); batches of 1..4 with one mutated member or a compensating pair. Oracle: an independent acceptance rule (>=k distinct indices, all < m, each won per the exact C08 reference lottery, each (key,stake) registered, each sigma valid via blst directly) evaluated on the object actually verified; batch accepted => every member accepted alone. Soundness against structural adversaries is what generated search can decide; it found and (after repair) guards two genuine defects.",
+        text="Honest aggregates (per-run pool of registrations: 1..6 parties, equal/random/2^60-vs-1 stakes, m<=10, phi incl. 1) are mutated by a 24-rule grammar over their JSON view (index sets, m-boundary values, not-won indices, signer slots, claimed key/stake, outsider keys carrying genuine signatures, sigma surgery incl. compensating pairs and points outside the prime-order group, Merkle batch-path nodes and indices), pushed through five wire paths (JSON, JSON-hex key, CBOR, bytes-hex key, harness-packed legacy bytes) and verified under the same or a foreign context (k+, m-, other phi/msg/avk); batches of 1..4 with one mutated member or a compensating pair. Oracle: an independent acceptance rule (>=k distinct indices, all < m, each won per the exact C08 reference lottery, each (key,stake) registered, each sigma valid via blst directly) evaluated on the object actually verified; batch accepted => every member accepted alone. Soundness against structural adversaries is what generated search can decide; it found and (after repair) guards two genuine defects; 5 of 5 seeded changes caught (two only after the grammar was extended).",
         note="Trusted base: blst BLS12-381, Blake2b, the interval-arithmetic lottery reference. Structural adversaries only (no forgeries). A panic inside verify counts as 'not accepted'. Claimed stakes are bounded by 4x total stake (larger values only slow the lottery down).",
         technique="property-based testing: mutation grammar over honest aggregates + independent acceptance-rule oracle (proptest)",
         design_ref="DESIGN.md §2 C01",
@@ -27,7 +27,7 @@ CLAIMED = {
     ),
     "C05": dict(
         category="exploration",
-        text="Every entry point of a 32-row wire table (mithril-stm from_bytes incl. the legacy layouts, serde JSON, every ProtocolKey string codec in both orders, MKProof / MKMapProof bincode, OpCert bytes, API messages plus their conversion into entities) is fed honest encodings (two registrations, legacy layouts packed by the harness, the repository's golden key strings, Dummy messages) and 60k structure-aware mutations of them (truncation, every 8-byte big-endian field set to 0/1/+1/2^32/2^56-1/2^63/2^64-1, version byte, splices, CBOR length-header inflation, hex damage, JSON number extremes, array growth, type swaps, nested key strings, deep nesting). In-check oracle: Ok or Err only (panics and, thanks to overflow checks, arithmetic overflows are caught), largest single allocation <= 64*len+16 MiB (counting global allocator), accepted input re-encodes to a fixed point, honest encodings accepted. libFuzzer targets over the same table (harness/fuzz) extend the search coverage-guided in the thorough tier. Found and (after repair) guards four genuine defects.",
+        text="Every entry point of a 32-row wire table (mithril-stm from_bytes incl. the legacy layouts, serde JSON, every ProtocolKey string codec in both orders, MKProof / MKMapProof bincode, OpCert bytes, API messages plus their conversion into entities) is fed honest encodings (two registrations, legacy layouts packed by the harness, the repository's golden key strings, Dummy messages) and 60k structure-aware mutations of them (truncation, every 8-byte big-endian field set to 0/1/+1/2^32/2^56-1/2^63/2^64-1, version byte, splices, CBOR length-header inflation, hex damage, JSON number extremes, array growth, type swaps, nested key strings, deep nesting) plus recursion-depth probes of the one recursive wire type (MKMapProof nested 10..200 000 levels, bincode and key string) run in sub-processes. In-check oracle: Ok or Err only (panics and, thanks to overflow checks, arithmetic overflows are caught), largest single allocation <= 64*len+16 MiB (counting global allocator), accepted input re-encodes to a fixed point, honest encodings accepted. libFuzzer targets over the same table (harness/fuzz) extend the search coverage-guided in the thorough tier. Found and (after repair) guards five genuine defects (the fifth, a stack overflow on nested MKMapProof sub-proofs, after a seeding sub-agent's remark).",
         note="Harness built with overflow checks + debug assertions (an overflow is a panic here, a silent wrap in production). An allocation the OS refuses aborts the process: the driver then reports exit 2 (inconclusive), the libFuzzer layer pins such inputs as crash artifacts. Random byte strings without structure are left to the fuzz targets.",
         technique="property-based testing + fuzzing: structure-aware mutation of honest encodings (proptest) and libFuzzer targets with in-target round-trip oracle, counting allocator",
         design_ref="DESIGN.md §2 C05",
@@ -115,7 +115,7 @@ CLAIMED = {
     ),
     "C14": dict(
         category="exploration",
-        text="The real aggregator (DependenciesBuilder as the repository's integration tests assemble it: real state machine, certifier, buffered certifier, epoch service, signer registration, multi-signer, sqlite on disk, HTTP router, message-queue processor; chain / immutable / block doubles of the repository) driven by 4 scripted + 400 generated histories per quick run: deployment start, 2-4 epoch blocks with registration all / some / nobody / rotated keys / late / ahead, signing rounds by subsets over HTTP or the queue for current, superseded, not-yet-open (buffered) or unknown entities with valid, duplicate, wrong-message, next- or previous-epoch-key signatures, expiry, restarts, multi-epoch jumps, operator re-genesis. After EVERY cycle and operation: I1 every new certificate and its chain verify with a fresh mithril_common verifier and with the mithril-client verifier on the HTTP view; I2 aggregate key, next key, parameters, signed message, epoch part equal what the harness derives from ITS OWN registration history with mithril-stm, the multi-signature verifies, listed signers and lottery indices come from valid submissions the harness made (quorum reached); I3 parent = first certificate of its epoch / of the previous one by the harness' insertion record; I4 no entity certified twice; I5 no certificate after a skipped epoch until re-genesis; I6 an expired message is never sealed.",
+        text="The real aggregator (DependenciesBuilder as the repository's integration tests assemble it: real state machine, certifier, buffered certifier, epoch service, signer registration, multi-signer, sqlite on disk, HTTP router, message-queue processor; chain / immutable / block doubles of the repository) driven by 10 scripted + 400 generated histories per quick run: deployment start, 2-4 epoch blocks with registration all / some / nobody / rotated keys / late / ahead, signing rounds by subsets over HTTP or the queue for current, superseded, not-yet-open (buffered) or unknown entities with valid, duplicate, wrong-message, next- or previous-epoch-key signatures, expiry (of every entity type while it is being signed), restarts, multi-epoch jumps, chain roll-backs that return to an earlier beacon, operator re-genesis. After EVERY cycle and operation: I1 every new certificate and its chain verify with a fresh mithril_common verifier and with the mithril-client verifier on the HTTP view; I2 aggregate key, next key, parameters, signed message, epoch part equal what the harness derives from ITS OWN registration history with mithril-stm, the multi-signature verifies, listed signers and lottery indices come from valid submissions the harness made (quorum reached); I3 parent = first certificate of its epoch / of the previous one by the harness' insertion record; I4 no entity certified twice; I5 no certificate after a skipped epoch until re-genesis; I6 an expired message is never sealed.",
         note="Model of epoch offsets hard-coded from the protocol description and validated on scripted honest histories; signer stakes and parameters constant within a history; the artifact task always finishes before the next event (its interruption is C15); interleavings at the granularity of harness operations.",
         technique="stateful property-based testing: generated event histories on the real aggregator, invariants checked after every step against an independent registration / key model (proptest)",
         design_ref="DESIGN.md §2 C14",
